@@ -1577,12 +1577,18 @@ class CodeGenerator(NodeVisitor):
         if frame.eval_ctx.volatile:
             raise nodes.Impossible()
 
-        if frame.eval_ctx.autoescape:
-            const = escape(const)
-
         # Template data doesn't go through finalize.
         if isinstance(node, nodes.TemplateData):
-            return str(const)
+            return str(escape(const) if frame.eval_ctx.autoescape else const)
+
+        if frame.eval_ctx.autoescape:
+            # The generated code escapes the finalized value. Folding in
+            # that order needs the finalize result before it is made a
+            # string, so leave it to runtime when both are in effect.
+            if self.environment.finalize:
+                raise nodes.Impossible()
+
+            const = escape(const)
 
         return finalize.const(const)  # type: ignore
 
